@@ -12,7 +12,7 @@ from fractions import Fraction
 
 import numpy as np
 
-from .common import (EXPONENTS, PREFIX, And, Case, Iff, Not, Or, band, call, check_names, close, dims_catalogue, distinct_scales, elements,
+from .common import (EXPONENTS, PREFIX, And, Case, Iff, Not, Or, band, call, check_names, close, dims_catalogue, elements,
                      exact_eq, ite, payload, vabs)
 from symx.core import SymReal
 
@@ -45,17 +45,19 @@ BOUNDS = {
              "the 13 rational exponents of E, add/multiply reduce/accumulate/outer and sum/prod/cumsum (methods and np.*), dot/matmul/"
              "inner/vdot up to 2x2 @ 2, sin/cos/tan of angle units, np.clip, 10 depth-2 programs}; operand unit shapes {atomic, k/m-"
              "prefixed, ua*ub, ua/ub, ua**2 with symbolic scales; table pairs that cancel in products: km~m, m~cm, hr~min, km/hr~m/s, "
-             "km/m, cm**2~1/m ... with concrete scales and symbolic values; bare numbers}; payload shapes (), (2,), (2,2) with "
+             "km/m, cm**2~1/m ... with concrete scales and symbolic values; bare numbers; SAME SPELLING WITH DIFFERENT SCALE: the same "
+             "unit names in two registries with independent symbolic scales, and one registry before/after the real registry.modify, "
+             "for the additive family, comparisons, max/min, hypot, mod family in all four call forms}; payload shapes (), (2,), (2,2) with "
              "broadcasting; dimension families length, mass, time, current, angle, scaled-dimensionless, offset-free temperature; a "
-             "selection of op x form x unit-pair x shape combinations (1193 cases)",
-    "thorough": "same ops; every op x every form x every listed unit pair x payload shapes (), (2,)~(), ()~(2,), (2,)~(2,) and selected "
+             "selection of op x form x unit-pair x shape combinations",
+    "thorough": "same ops; every op x every form x every listed unit pair (9 same-spelling shapes incl. prefixed/compound/angle/temperature) x payload shapes (), (2,)~(), ()~(2,), (2,)~(2,) and selected "
                 "(2,2); +, -, sqrt swept over every dimension found in the registry at run time and *, / over every ordered pair of them "
                 "(except pairs whose product/quotient is dimensionless: cancellation with symbolic scales)",
 }
 OUTSIDE = ("IEEE rounding/overflow/nan (A1); integer and complex payloads (C17); units with an offset (C08); exp/log/hyperbolic/non-angle "
            "trig, logaddexp, rounding family, frexp/modf/spacing, floor-division of different dimensions (as the property says); "
            "cancellation of same-dimension unit factors with SYMBOLIC scales (sympy cannot hold a z3 term: those pairs use table units, "
-           "and floor_divide/divmod of two symbolic-scale units assume the scales exactly equal or more than 1e-3 apart); power with "
+           "and floor_divide/divmod of two differently spelled symbolic-scale units assume the scales more than 1e-3 apart; the registry.modify variant uses atomic units only: stale prefixed/compound strings after modify are C12's); power with "
            "non-scalar exponents; roots of negative values; matmul beyond 2x2; (2,2)@(2,2) with inexact table coefficients; the "
            "ndarray.clip method and multiply.accumulate (both raise for every input on this tree; np.clip with mixed units raises - a "
            "refusal is not a wrong number). A bare number is read as a dimensionless quantity: `1 + x%` coming back as 'dimensionless' "
@@ -117,12 +119,13 @@ class Spec:
     def atoms(self):
         return [a for a, _ in self.factors]
 
-    def build(self, ctx, reg, dims_override=None):
-        """register the harness atoms in reg; -> (unit string, oracle scale, oracle dims)"""
+    def build(self, ctx, reg, dims_override=None, sfx=""):
+        """register the harness atoms in reg; -> (unit string, oracle scale, oracle dims). sfx: suffix of the scale SYMBOLS
+        (the same unit name in a second registry / after registry.modify gets its own scale symbol)"""
         D = ctx.mods["unyt"].dimensions
         scale, dims = 1.0, D.dimensionless
         for a, e in self.factors:
-            s, d = atom_scale(ctx, reg, a, dims_override)
+            s, d = atom_scale(ctx, reg, a, dims_override, sfx)
             scale = scale * ppow(s, e)
             dims = dims * d ** _sym_exp(e)
         return self.text, scale, dims
@@ -132,7 +135,7 @@ class Spec:
 
     def quantity(self, ctx, reg, name, shape, **kw):
         """-> (operand object, payload symbols, scale, dims)"""
-        u, s, d = self.build(ctx, reg, kw.pop("dims_override", None))
+        u, s, d = self.build(ctx, reg, kw.pop("dims_override", None), kw.pop("sfx", ""))
         v = ctx.reals(name, shape, **kw)
         if self.bare:
             return v, v, s, d
@@ -183,7 +186,7 @@ def _sym_exp(e):
     return sympy.Rational(e.numerator, e.denominator)
 
 
-def atom_scale(ctx, reg, a, dims_override=None):
+def atom_scale(ctx, reg, a, dims_override=None, sfx=""):
     D = ctx.mods["unyt"].dimensions
     if a in TABLE:
         return TABLE[a][0], getattr(D, TABLE[a][1])
@@ -200,7 +203,7 @@ def atom_scale(ctx, reg, a, dims_override=None):
         d = dims_override[base]
     else:
         d = getattr(D, ATOMS[base])
-    s = ctx.real(base + "_s", pos=True)
+    s = ctx.real(base + sfx + "_s", pos=True)
     if base not in reg.lut:
         ctx.add_row(reg, base, d, s, 0.0, prefixable=True)
     return (s * PREFIX[pre] if pre else s), d
@@ -499,10 +502,9 @@ FORMS = ["op", "ufunc", "iop", "out"]
 
 
 def assume_distinct(ctx, spec0, spec1, s0, s1):
-    if len(spec0.factors) > 1 or len(spec1.factors) > 1:
-        ctx.assume(Or(s0 > s1 * 1.001, s1 > s0 * 1.001))
-    else:
-        distinct_scales(ctx, s0, s1)
+    """differently spelled units of (nearly) equal symbolic scale make xa//xb cancel xa/xb inside a sympy expression, which cannot
+    hold a z3 term (engine limit): their scales are assumed clearly different. Equal scales are covered by the same-unit cases."""
+    ctx.assume(Or(s0 > s1 * 1.001, s1 > s0 * 1.001))
 
 
 def apply_binary(ctx, b, form, A, Bq, reg, out_unit, rshape):
@@ -526,16 +528,28 @@ def apply_binary(ctx, b, form, A, Bq, reg, out_unit, rshape):
     raise KeyError(form)
 
 
-def make_binary_case(opname, form, spec0, spec1, sh0=(), sh1=(), tag="", dims_override=None, same_object=False):
+def make_binary_case(opname, form, spec0, spec1, sh0=(), sh1=(), tag="", dims_override=None, same_object=False, variant=None):
+    """variant: None - both operands in one registry; 'tworeg' - the second operand lives in a SECOND registry in which the
+    same unit names carry their own (symbolic) scales; 'modify' - one registry, the second operand is created after the real
+    registry.modify(atom, new_scale) of every harness atom of its unit. In both variants units of the SAME SPELLING differ in
+    scale, so 'same unit' must be decided by value, never by name/expression."""
     b = BIN[opname]
 
     def h(ctx):
         reg = ctx.registry([])
         A, x, s0, d0 = spec0.quantity(ctx, reg, "x", sh0, dims_override=dims_override)
-        Bq, y, s1, d1 = spec1.quantity(ctx, reg, "y", sh1, nonzero=b.ynonzero, dims_override=dims_override)
+        if variant == "tworeg":
+            reg2 = ctx.registry([])
+            Bq, y, s1, d1 = spec1.quantity(ctx, reg2, "y", sh1, nonzero=b.ynonzero, dims_override=dims_override, sfx="2")
+        elif variant == "modify":
+            for a in spec1.atoms():
+                reg.modify(a, ctx.real(a + "2_s", pos=True))
+            Bq, y, s1, d1 = spec1.quantity(ctx, reg, "y", sh1, nonzero=b.ynonzero, dims_override=dims_override, sfx="2")
+        else:
+            Bq, y, s1, d1 = spec1.quantity(ctx, reg, "y", sh1, nonzero=b.ynonzero, dims_override=dims_override)
         if same_object:
             Bq.units = A.units
-        if b.family == "floordiv" and is_sym(s0) and is_sym(s1) and not same_object:
+        if b.family == "floordiv" and is_sym(s0) and is_sym(s1) and not same_object and spec0.text != spec1.text:
             # units whose scales differ by less than 1e-9 are 'equal' for unyt; xa//xb then cancels xa/xb with symbolic scales
             # inside a sympy expression, which cannot hold a z3 term (engine limit): scales exactly equal or clearly different
             # (compound units: clearly different only - equal products of different factors cancel factor by factor)
@@ -546,7 +560,8 @@ def make_binary_case(opname, form, spec0, spec1, sh0=(), sh1=(), tag="", dims_ov
         ys = bcast(elements(y), sh1, rshape)
         out_unit = None
         r, o = apply_binary(ctx, b, form, A, Bq, reg, out_unit, rshape)
-        check_binary_result(ctx, b, r, xs, ys, s0, s1, d0, d1, reg, A_units=ua_before)
+        # after registry.modify the registry no longer describes units created before it (C12's subject): no re-reading there
+        check_binary_result(ctx, b, r, xs, ys, s0, s1, d0, d1, None if variant == "modify" else reg, A_units=ua_before)
         if o is not None:
             ctx.require("out= holds the result", And(*[exact_eq(p, q) if not b.bare_result else bool(p) == bool(q)
                                                         for p, q in zip(payload(o), payload(r))]))
@@ -585,7 +600,8 @@ def check_binary_result(ctx, b, r, xs, ys, s0, s1, d0, d1, reg, A_units=None, la
     ctx.require(label + "dims", same_dims(dims_of(ctx, r), b.D(d0, d1)))
     if b.unit_left and A_units is not None:
         ctx.require(label + "unit is the left operand's", hasattr(r, "units") and unit_same(r.units, A_units))
-    ctx.require(label + "result unit agrees with its registry", wellformed(ctx, r, reg))
+    if reg is not None:
+        ctx.require(label + "result unit agrees with its registry", wellformed(ctx, r, reg))
 
 
 # ------------------------------------------------------------------------------------------------ divmod
@@ -643,7 +659,7 @@ def make_divmod_case(form, spec0, spec1, tag="", same_object=False):
         if same_object:
             Bq.units = A.units
         X, Y = elements(x)[0] * s0, elements(y)[0] * s1
-        if is_sym(s0) and is_sym(s1) and not same_object:
+        if is_sym(s0) and is_sym(s1) and not same_object and spec0.text != spec1.text:
             assume_distinct(ctx, spec0, spec1, s0, s1)      # for the `//` of the differential obligation (see make_binary_case)
         o = None
         if form == "op":
@@ -996,6 +1012,7 @@ DIV_ONLY_PAIRS = ["xa*xs~xa", "xa**2~xa"]          # sympy cancels the shared sy
 # cancelling pairs: table units (concrete scales), values symbolic; xm is a symbolic-scale bystander
 MUL_PAIRS_TABLE = ["km~1/m", "km/hr~min", "cm**2~1/m", "m~g/cm", "xm*km~1/m", "km/m~s", "hr/min~xa"]
 DIV_PAIRS_TABLE = ["m~cm", "km~m", "hr~min", "km/hr~m/s", "m**2~cm", "xm*km~m", "xm~km/m", "km/m~cm/m"]
+SAME_SPELLING = ["xa~xa", "kxa~kxa", "xa~kxa", "xa*xs~xa*xs", "xa/xs~xa/xs", "xa**2~xa**2", "xg~xg", "xp~xp", "xtk~xtk"]
 UNARY_SPECS = ["xa", "kxa", "xa*xs", "xa/xs", "xa**2", "km/m", "cm/m", "hr/min", "xp", "xg"]
 ANGLE_SPECS = ["xg", "kxg", "mxg", "radian", "degree", "arcmin", "degree*km/m", "xg*km/m"]
 
@@ -1011,7 +1028,7 @@ def cases(tier, mods):
     out = []
     add = out.append
 
-    def binary(ops, pairs, shapes, forms=None, same=False):
+    def binary(ops, pairs, shapes, forms=None, same=False, variant=None):
         for opn in ops:
             b = BIN[opn]
             for f in (forms or b.forms()):
@@ -1028,7 +1045,8 @@ def cases(tier, mods):
                             continue
                         if f == "iop" and (np.broadcast_shapes(sh0, sh1) != sh0 or s0.bare):
                             continue
-                        add(make_binary_case(opn, f, s0, s1, sh0, sh1, same_object=same, tag="/same" if same else ""))
+                        add(make_binary_case(opn, f, s0, s1, sh0, sh1, same_object=same, variant=variant,
+                                             tag="/same" if same else ("/" + variant if variant else "")))
 
     SC = [((), ())]
     ARR = [((2,), ()), ((), (2,)), ((2,), (2,))]
@@ -1072,6 +1090,20 @@ def cases(tier, mods):
         binary(["divide", "true_divide"], DIV_ONLY_PAIRS + DIV_PAIRS_TABLE, SC + ARR)
         binary(["multiply", "divide"], ["xa~xm", "xa~kxm"], ARR2)
         binary(["multiply", "divide"], ["xa~xa", "xa/xs~xa/xs"], SC + ARR[2:], same=True)
+    # same spelling, different scale: the same unit names in two registries / before and after registry.modify
+    if quick:
+        binary(addops + cmpops + modops, ["xa~xa"], SC, variant="tworeg")
+        binary(addops + cmpops + modops, ["xa~xa"], SC, variant="modify")
+        binary(["add", "subtract", "maximum", "less", "remainder"], ["kxa~kxa", "xa/xs~xa/xs", "xa~kxa"], SC, variant="tworeg")
+        binary(["add", "subtract", "hypot", "greater_equal"], ["xa~xa"], ARR[2:], variant="tworeg")
+        binary(["add", "minimum", "equal"], ["xa~xa"], ARR[:1], variant="modify")
+    else:
+        binary(addops + cmpops, SAME_SPELLING, SC + ARR, variant="tworeg")
+        binary(modops, SAME_SPELLING, SC, variant="tworeg")
+        # modify: atomic unit only - a prefixed/compound unit string looked up before the modify stays stale afterwards (C12's known defect)
+        binary(addops + cmpops, ["xa~xa"], SC + ARR, variant="modify")
+        binary(modops, ["xa~xa"], SC, variant="modify")
+        binary(addops[:3], ["xa~xa"], ARR2, variant="tworeg")
     # divmod
     dm_pairs = ["xa~xb", "km~m"] if quick else ["xa~xb", "xa/xs~xb/xt", "m~cm", "km~m"]
     for f in (["op", "ufunc"] if quick else ["op", "ufunc", "out"]):
